@@ -7,7 +7,7 @@ use crate::runner::*;
 use crate::setops::*;
 use serde_json::json;
 
-pub const RULE: &str = "cases = ordered pairs (A,B); T exhaustive bound-kind table (every pair of end kinds at below/equal/above positions, incl. touching endpoints), M multi-alternative / parsed random, P random prerelease bounds, H allows_any(=v) against hook bounds for every probe; oracle = allows_any(A,B) == intersect(A,B).is_some() == allows_any(B,A); false ⇒ no version within both (exact interval model); a probe satisfying both ⇒ true; touching at a shared version is an overlap only for (<=v, >=v); non-trivial = the pair has at least one tie (two ends on the same version) or the answer is false; distinct = distinct operand text pairs";
+pub const RULE: &str = "cases = ordered pairs (A,B); T exhaustive bound-kind table (every pair of end kinds at below/equal/above positions, incl. touching endpoints), M multi-alternative / parsed random, L long alternative lists (17..300 alternatives, some 3000) against small partners in both orders on a 256 KiB stack, P random prerelease bounds, H allows_any(=v) against hook bounds for every probe; oracle = allows_any(A,B) == intersect(A,B).is_some() == allows_any(B,A); false ⇒ no version within both (exact interval model); a probe satisfying both ⇒ true; touching at a shared version is an overlap only for (<=v, >=v); non-trivial = the pair has at least one tie (two ends on the same version) or the answer is false; distinct = distinct operand text pairs";
 
 pub fn judge_pair(ctx: &mut Ctx, a: &Operand, b: &Operand) {
     ctx.begin(|| format!("C09 allows_any {} , {}", a.text, b.text));
@@ -119,6 +119,26 @@ pub fn run(ctx: &mut Ctx) {
             if let Some(a) = a {
                 if let Some(b) = neighbour_operand(&mut r, &a) {
                     judge_pair(ctx, &a, &b);
+                }
+            }
+        }
+    }
+    // long alternative lists (17..300, some 3000) against small partners, both orders, run
+    // on a 256 KiB stack: counts around 16/32/64/256 and stack depth following the list length
+    ctx.stratum("L-long-alternative-lists", false);
+    let n = ctx.tier.n(60, 2_000);
+    for i in 0..n {
+        if ctx.take() {
+            let mut r = Rng::for_case(ctx.seed, "C09-L", i);
+            if let Some(a) = long_alt_operand(&mut r, &tiv, true) {
+                if let Some(b) = long_partner(&mut r, &a, &tiv) {
+                    let done = on_small_stack(|| {
+                        judge_pair(ctx, &a, &b);
+                        judge_pair(ctx, &b, &a);
+                    });
+                    if done.is_none() {
+                        ctx.inconclusive("small-stack thread ended without a result");
+                    }
                 }
             }
         }
